@@ -6,33 +6,33 @@ HOOK_COMMITS = ["9676e60"]
 
 CHECKS = {
  "C01": dict(level="model_checking", design="DESIGN.md §6 C01, §4.1, §5.2",
-   technique="TLA+ BrokerCtl.tla model-checked with TLC; every edge of its state graph replayed on the real Broker under a gate-imposed schedule (replay conformance)",
-   text="TLC checks OneShell, Consistent, RefusedWhenRequired and friends on every interleaving of 3-4 attempts (all mixes of /i, /o, /io, three IDs incl. the empty one, stream endings, shutdown). Every edge of that graph is then replayed on a real iobroker.Broker with the verif gates imposing the admission/release order; after each step the broker's state, the attempt's fate, the notices and events are compared with TLC's successor state, and refused attempts are checked to have received no I/O.",
+   technique="TLA+ BrokerCtl.tla model-checked with TLC; every edge of its state graph replayed on the real Broker under a gate-imposed schedule (replay conformance); TLC trace validation (BrokerCtlTrace.tla) of the repository's tests and of free-running drivers",
+   text="TLC checks OneShell, Consistent, RefusedWhenRequired and friends on every interleaving of 3-4 attempts (all mixes of /i, /o, /io, three IDs incl. the empty one, stream endings, shutdown). Every edge of that graph is then replayed on a real iobroker.Broker with the verif gates imposing the admission/release order; after each step the broker's state, the attempt's fate, the notices and events are compared with TLC's successor state, and refused attempts are checked to have received no I/O. Three further legs: executions of the repository's own iobroker/hsrv tests (hooks recording, VERIF_TRACE) and of free-running concurrent drivers are validated by TLC against BrokerCtlTrace.tla, and over real HTTPS an output stream is only paired with an input stream when its path ID is exactly the same (case, prefix, extension, escaped variants are refused).",
    note="Trusted: TLC, the gate hooks (observe/delay only), the projection in harness/brk. IDs are drawn from a seeded family of related strings, not all strings. The HTTP layer's ID extraction is covered separately by the server-level checks."),
  "C03": dict(level="model_checking", design="DESIGN.md §6 C03, §4.1, §5.3",
    technique="TLA+ BrokerOut.tla model-checked with TLC (safety + liveness); traces recorded from the real proxyOut validated by TLC against BrokerOutTrace.tla (trace validation)",
-   text="BrokerOut models the reader goroutine, its 2-slot queue, the forwarder, the close notice and the terminal; TLC proves ShownIsPrefix, NoticeAfterAllData, NoticeLast, NothingAfterDrop for every interleaving with operator-channel capacity 0/1/4. Environment schedules covering every edge of that graph (reads returning data / data+error / error / nothing, terminal speed, cancellation, transport close) are run against a real Broker and each recorded trace must be a behaviour of the specification (silent internal steps inferred by TLC).",
+   text="BrokerOut models the reader goroutine, its 2-slot queue, the forwarder, the close notice and the terminal; TLC proves ShownIsPrefix, NoticeAfterAllData, NoticeLast, NothingAfterDrop for every interleaving with operator-channel capacity 0/1/4. Environment schedules covering every edge of that graph (reads returning data / data+error / error / nothing, terminal speed, cancellation, transport close) are run against a real Broker and each recorded trace must be a behaviour of the specification (silent internal steps inferred by TLC). Curlrevshell.tla composes BrokerOut with Opshell over the operator channel and TLC checks the end-to-end form (what is displayed is, in order, part of what was sent; nothing lost without Ctrl+O or cancellation); a live leg uploads chunks of 1 B..70 KB on /o/{id} and /io over real HTTPS and compares what is displayed byte for byte, before the close notice.",
    note="Trusted: TLC, harness-owned reader/terminal, content-to-chunk mapping. Chunk sizes come from a seeded set up to the 2048-byte read buffer; the pty display leg is covered by C19/C12 checks."),
  "C04": dict(level="model_checking", design="DESIGN.md §6 C04, §4.1, §5.2, §5.3",
    technique="TLA+ BrokerCtl.tla/BrokerOut.tla model-checked with TLC incl. liveness under fairness; gated replay of the control graph plus TLC trace validation of output-path executions with a per-world goroutine census",
-   text="Safety (ExactlyOneGone, ReadyOnlyWhenFull, FullImpliesReady, ReArm, ShutdownWaits) and liveness (PeerCancelled, EndsWhenCancelled, NoLeak) are model-checked; the control graph's edges are replayed on the real Broker comparing notices, events, book-keeping and Do's return; output-path executions (flood, stalled terminal, cancellation at every point) end with a goroutine census that the trace specification only accepts when nothing of the stream is left running.",
+   text="Safety (ExactlyOneGone, ReadyOnlyWhenFull, FullImpliesReady, ReArm, ShutdownWaits) and liveness (PeerCancelled, EndsWhenCancelled, NoLeak) are model-checked; the control graph's edges are replayed on the real Broker comparing notices, events, book-keeping and Do's return; output-path executions (flood, stalled terminal, cancellation at every point) end with a goroutine census that the trace specification only accepts when nothing of the stream is left running; the repository's tests and free-running drivers are trace-validated against BrokerCtlTrace.tla; and 40 (quick) / 400 (thorough) shells in series over real HTTPS, each with a new ID and ended in different ways, must each be accepted, announced ready once, gone once, with the callback help printed again once.",
    note="Trusted: TLC, pprof goroutine labels for the census, 5 s bound standing in for 'eventually'."),
  "C06": dict(level="model_checking", design="DESIGN.md §6 C06, §4.1, §5.2",
    technique="TLA+ BrokerCtl.tla (SameRequest, AtMostOneIO) model-checked with TLC; every admission order of the halves of 2 /io requests replayed on the real Broker through gates",
-   text="TLC checks SameRequest / AtMostOneIO / NoMixIOUni over every interleaving of two /io requests (four halves) with or without unidirectional attempts, and the harness replays every edge on a real Broker, ordering the halves with the admit gates and checking by its own accounting which request each attached half belongs to.",
+   text="TLC checks SameRequest / AtMostOneIO / NoMixIOUni over every interleaving of two /io requests (four halves) with or without unidirectional attempts, and the harness replays every edge on a real Broker, ordering the halves with the admit gates and checking by its own accounting which request each attached half belongs to; free-running concurrent /io callers are trace-validated by TLC (SameRequest, AtMostOneIO evaluated on every state of the recorded execution).",
    note="Trusted: TLC, gate hooks. 3-4 simultaneous /io requests are covered by simulation in the thorough tier only."),
  "C02": dict(level="model_checking", design="DESIGN.md §6 C02, §4.1, §5.3",
    technique="TLA+ BrokerIn.tla model-checked with TLC (safety + liveness); traces of the real proxyIn (gated writer, fault injection) validated by TLC against BrokerInTrace.tla",
-   text="BrokerIn models operator lines, successive shells, writer kinds (FlushError / http.Flusher / plain), a possible failure at every write and flush, cancellation and closing of the input channel; TLC proves GapFree, LostOnlyOnOwnError, FlushBeforeNextTake, Prompt. Schedules covering every edge of that graph are executed on a real Broker with harness-owned writers whose calls park until the schedule decides their result; every recorded trace (enter / write / flush / log / release events) must be a behaviour of the specification.",
-   note="Trusted: TLC, harness writers, content-to-line mapping. The live HTTPS promptness leg is in the server-level checks."),
+   text="BrokerIn models operator lines, successive shells, writer kinds (FlushError / http.Flusher / plain), a possible failure at every write and flush, cancellation and closing of the input channel; TLC proves GapFree, LostOnlyOnOwnError, FlushBeforeNextTake, Prompt. Schedules covering every edge of that graph are executed on a real Broker with harness-owned writers whose calls park until the schedule decides their result; every recorded trace (enter / write / flush / log / release events) must be a behaviour of the specification. A live leg enters lines one at a time on a real hsrv and requires each to reach a real HTTPS client on /i/{id} and /io within 5 s before the next is entered.",
+   note="Trusted: TLC, harness writers, content-to-line mapping. Promptness is a 5 s bound."),
  "C08": dict(level="fault_enumeration", design="DESIGN.md §6 C08, §4.3",
    technique="TLA+ Identity.tla model-checked with TLC; every history of its graph and every crash point (all prefix lengths of the cache file) replayed on real files through sstls.Listen and a TLS handshake",
    text="Identity.tla states StableKey, TornNeverSilentlyDifferent, NeverRewritten, MissingRegenerates over histories of start / stop / crash-during-save / damage / delete; each history is replayed on real files: the served key is observed by a real TLS handshake, the file's bytes, inode, mtime and modes are compared before and after every run, and every prefix length of a complete cache file is tried as a crash point.",
    note="Trusted: crypto/tls, crypto/x509, SHA-256. A crash is modelled by the prefix it leaves behind. The real-binary leg (flag wiring, exit status) is part of C20."),
  "C11": dict(level="model_checking", design="DESIGN.md §6 C11, §4.1, §5.3",
    technique="TLA+ BrokerIn/BrokerOut/BrokerCtl log-history invariants model-checked with TLC; the slog records of real executions are trace events validated by TLC, connect/refusal records compared per attempt in the gated replay",
-   text="The log is a history variable of the broker specifications (LogMatchesDelivery, LogMatchesForwarded, NothingDroppedLogged); a capturing slog.Handler turns every Shell I/O record of a real execution into a trace event that TLC must be able to place exactly after the corresponding delivery, and the control replay checks one connect and one disconnect record per accepted stream and one error record with a true reason per refused stream.",
-   note="Trusted: TLC, the capturing handler. The JSON framing of the real -log file is checked in the end-to-end leg."),
+   text="The log is a history variable of the broker specifications (LogMatchesDelivery, LogMatchesForwarded, NothingDroppedLogged); a capturing slog.Handler turns every Shell I/O record of a real execution into a trace event that TLC must be able to place exactly after the corresponding delivery, and the control replay checks one connect and one disconnect record per accepted stream and one error record with a true reason per refused stream. The -log file written by the real binary during a session with quotes, newlines, control and non-UTF-8 bytes is parsed line by line (one JSON object per line) and its records compared with the session.",
+   note="Trusted: TLC, the capturing handler. Data equality for the -log file is modulo JSON's replacement of invalid UTF-8, as the statement says."),
  "C15": dict(level="exploration", design="DESIGN.md §6 C15, §4.7",
    technique="TLA+ UU.tla transcription of uuencode/uudecode; TLC enumerates the case space, checks round-trip/length laws and emits expected results used as oracle for the real functions and perl (specification as oracle); TLC validates the 2^24-group tables",
    text="UU.tla defines Enc, Dec, MaxEncodedLen, MaxDecodedLen over byte sequences; TLC enumerates encoder cases (lengths x content patterns) and decoder cases (valid encodings x 18 mutations: CR-LF, blank lines, bad length byte, wrong data length, characters outside the alphabet at each position class, backtick/space), checks RoundTrip / MaxLenOK / DecTotal on them and prints the expected outcome of each; the driver runs every case through AppendEncode/AppendDecode in three memory layouts (purity, no panic) and through perl pack/unpack, encodes all 2^24 three-byte groups with the real encoder, checks the per-character dependencies black-box and has TLC validate the projected tables against EncGroup.",
@@ -83,7 +83,7 @@ CHECKS = {
    note="'Shortly' is 3 s, the deciding line is entered 1.2 s after the shell has gone (the graceful shutdown polls up to 500 ms apart). An implementation ahead of the specification's silent steps is accepted."),
  "C19": dict(level="model_checking", design="DESIGN.md §6 C19, §4.4",
    technique="TLA+ Opshell.tla (discrete-time mute state machine) model-checked with TLC incl. liveness; the edges of its graph replayed in real time against the real lib/opshell on a pseudo-terminal",
-   text="Opshell.tla models Ctrl+O, shell output, status lines, the silence timer and time in half-second ticks; TLC checks MutedDropsOnlyPlain, NothingDroppedWithoutCtrlO, UnmuteOnlyAfterCalm, SuppressedPushesTimer, AlreadyMutedChangesNothing and MuteEndsByItself over every schedule within the bounds. Walks covering the graph's edges are replayed in real time: a helper built from /verif hosts the real opshell.New + Shell.Do on a pty, output and status lines are injected at their ticks through a side channel, Ctrl+O is typed on the pty, and the terminal output is read with arrival times (which markers appear, the announcements, the un-muting instant within -0.45/+0.6 tick).",
+   text="Opshell.tla models Ctrl+O, shell output, status lines, the silence timer and time in half-second ticks; TLC checks MutedDropsOnlyPlain, NothingDroppedWithoutCtrlO, UnmuteOnlyAfterCalm, SuppressedPushesTimer, AlreadyMutedChangesNothing and MuteEndsByItself over every schedule within the bounds. Walks covering the graph's edges are replayed in real time: a helper built from /verif hosts the real opshell.New + Shell.Do on a pty, output and status lines are injected at their ticks through a side channel, Ctrl+O is typed on the pty, and the terminal output is read with arrival times (which markers appear, the announcements, the un-muting instant within -0.45/+0.6 tick). Curlrevshell.tla (BrokerOut composed with Opshell) is model-checked as well.",
    note="Real time: schedules whose events cannot be sent within 120 ms of plan are re-run or dropped; events coinciding with the timer's expiry are not generated. Quick replays a seeded subset of the edge cover, thorough all of it."),
 }
 
